@@ -42,8 +42,30 @@ type c15Case struct {
 	Ideal bool `json:"ideal,omitempty"`
 	// Chunk: the transport takes the request body in pieces of this many bytes
 	// (0 = 32 KiB), so the context can end in the middle of a Send.
-	Chunk  int   `json:"chunk,omitempty"`
-	Prefix []int `json:"prefix,omitempty"`
+	Chunk int `json:"chunk,omitempty"`
+	// ViaIcept: the caller's own context stays live; the context that ends is
+	// one that a client interceptor substituted for it.
+	ViaIcept bool  `json:"via_icept,omitempty"`
+	Prefix   []int `json:"prefix,omitempty"`
+}
+
+// ctxSwapI is a client interceptor that replaces the call's context.
+type ctxSwapI struct{ ctx func() context.Context }
+
+func (i ctxSwapI) WrapUnary(next connect.UnaryFunc) connect.UnaryFunc {
+	return func(_ context.Context, req connect.AnyRequest) (connect.AnyResponse, error) {
+		return next(i.ctx(), req)
+	}
+}
+
+func (i ctxSwapI) WrapStreamingClient(next connect.StreamingClientFunc) connect.StreamingClientFunc {
+	return func(_ context.Context, spec connect.Spec) connect.StreamingClientConn {
+		return next(i.ctx(), spec)
+	}
+}
+
+func (i ctxSwapI) WrapStreamingHandler(next connect.StreamingHandlerFunc) connect.StreamingHandlerFunc {
+	return next
 }
 
 func (k c15Case) key() string {
@@ -62,6 +84,9 @@ func (k c15Case) key() string {
 	}
 	if k.Chunk > 0 {
 		x += fmt.Sprintf("+chunk%d", k.Chunk)
+	}
+	if k.ViaIcept {
+		x += "+via-interceptor"
 	}
 	return fmt.Sprintf("%s/%s/%s/%s/%s/r%ds%d/d%d", k.Proto, k.Kind, k.ReqMode, k.Client, x, k.HRecv, k.HSend, k.Bound)
 }
@@ -144,9 +169,13 @@ func c15Body(k c15Case, s *bsched.Sched) any {
 		return ctx.Err()
 	})
 	tr := &memhttp.Transport{Handler: h, Proto: 2, ReqMode: k.ReqMode, Gate: s.Gate, PromptCancel: k.Ideal, ReqChunk: k.Chunk}
-	cl := NewClient(tr, Cfg{Proto: k.Proto, Comp: CompNone})
 	var ctx context.Context
 	var cancel context.CancelFunc
+	var extra []connect.ClientOption
+	if k.ViaIcept {
+		extra = append(extra, connect.WithInterceptors(ctxSwapI{func() context.Context { return ctx }}))
+	}
+	cl := NewClient(tr, Cfg{Proto: k.Proto, Comp: CompNone}, extra...)
 	custom := errors.New("caller-supplied cause")
 	switch {
 	case k.Deadline && k.Cause:
@@ -172,6 +201,10 @@ func c15Body(k c15Case, s *bsched.Sched) any {
 			obs.XDone = tick()
 		})
 	}
+	callCtx := ctx
+	if k.ViaIcept {
+		callCtx = context.Background() // stays live; the interceptor substitutes ctx
+	}
 	record := func(op byte, f func() (string, error)) {
 		o := opObs{Op: op, Start: tick()}
 		class, err := f()
@@ -186,7 +219,7 @@ func c15Body(k c15Case, s *bsched.Sched) any {
 	s.Go("c", func() {
 		switch k.Kind {
 		case KBidi:
-			stream := cl.CallBidiStream(ctx)
+			stream := cl.CallBidiStream(callCtx)
 			n := 0
 			for i := 0; i < len(k.Client); i++ {
 				switch op := k.Client[i]; op {
@@ -211,11 +244,11 @@ func c15Body(k c15Case, s *bsched.Sched) any {
 			}
 		case KUnary:
 			record('U', func() (string, error) {
-				_, err := cl.CallUnary(ctx, connect.NewRequest(&BV{Value: []byte{'c', 0}}))
+				_, err := cl.CallUnary(callCtx, connect.NewRequest(&BV{Value: []byte{'c', 0}}))
 				return "ok", err
 			})
 		case KClient:
-			stream := cl.CallClientStream(ctx)
+			stream := cl.CallClientStream(callCtx)
 			record('S', func() (string, error) { return "ok", stream.Send(&BV{Value: []byte{'c', 0}}) })
 			record('S', func() (string, error) { return "ok", stream.Send(&BV{Value: []byte{'c', 1}}) })
 			record('C', func() (string, error) { _, err := stream.CloseAndReceive(); return "ok", err })
@@ -223,7 +256,7 @@ func c15Body(k c15Case, s *bsched.Sched) any {
 			var stream *connect.ServerStreamForClient[BV]
 			record('O', func() (string, error) {
 				var err error
-				stream, err = cl.CallServerStream(ctx, connect.NewRequest(&BV{Value: []byte{'c', 0}}))
+				stream, err = cl.CallServerStream(callCtx, connect.NewRequest(&BV{Value: []byte{'c', 0}}))
 				return "ok", err
 			})
 			if stream != nil {
@@ -393,6 +426,14 @@ func c15Cases(thorough bool) []c15Case {
 	for _, k := range append([]c15Case(nil), out...) {
 		if k.ReqMode == memhttp.ReqEager {
 			k.Ideal = true
+			out = append(out, k)
+		}
+	}
+	// the context that ends is one a client interceptor substituted for the caller's
+	for _, k := range append([]c15Case(nil), out...) {
+		if k.ReqMode == memhttp.ReqEager && !k.Ideal && !k.RR && !k.Cause && k.Bound == 1 && k.HRecv == 0 &&
+			(k.Kind != KBidi || len(k.Client) <= 2 || thorough) {
+			k.ViaIcept = true
 			out = append(out, k)
 		}
 	}
